@@ -4,6 +4,7 @@ import NixModel.Lemmas.C18Content
 import NixModel.Lemmas.C18Repeat
 import NixModel.Lemmas.C18History
 import NixModel.Lemmas.C18Shape
+import NixModel.Lemmas.C18Inside
 
 /-!
 # C18 — format upgrade preserves content, is idempotent and resumable
@@ -279,6 +280,72 @@ example : (interrupt [1, 2, 1] 1 2 sample).2 = none ∧ (interrupt [1, 2, 1] 1 2
 example : (upgrade [1, 2, 1] 1 sample).2 = none ∧ upToDate [1, 2, 1] sample = false := by
   unfold upgrade
   rw [sample_collect]
+  decide +kernel
+
+/-! ## interruption *inside* one conversion
+
+Outside the property's quantifier ("between conversion steps"), but stated and proved rather than assumed: the
+re-check of a property conversion looks only at the main dataset, so a conversion cut after `del hfile[propname]`
+is never taken up again. -/
+
+/-- Whatever the point inside the conversion of a compound property `p` (before its `(c+1)`-th
+`create_property` call, any `c`): no later `collect_tasks` schedules `p` again; cut before the first call the
+dataset is gone altogether; cut after the last call it is the complete conversion. For every file. -/
+theorem C18_inside_never_rescheduled (lib : List Nat) (run c : Nat) (f : File) (p : Path) (o : OldProp)
+    (ho : lookup f.props p = some (.old o)) :
+    Step.prop p ∉ collect lib (convertPropTake run f p c).1 ∧
+    hasPath (convertPropTake run f p 0).1.props p = false ∧
+    ((converted run p o).length ≤ c → convertPropTake run f p c = convertProp run f p) :=
+  ⟨inside_not_scheduled lib c ho, (inside_zero_gone ho).1,
+   fun hc => inside_full c (fun o' ho' => by rw [ho] at ho'; cases ho'; exact hc)⟩
+
+/-- A range dimension cut between the creation of its link group and the removal of the alias link holds both:
+it is never scheduled again, a stale task list fails on it, and it reads like the converted dimension. -/
+theorem C18_inside_dim (run : Nat) (daid : String) (a : Arr) (d : Dim) (h : d.halfConverted = true) :
+    isAliasDim d = false ∧ convertDimObj run daid d = (d, some .valueError) ∧
+    readDim a d = ⟨a.data, a.unit, a.label⟩ :=
+  half_converted_dim run daid a d h
+
+/-- the statement one might hope for: a run cut inside a conversion is completed by the re-run -/
+def InsideRecoverable : Prop :=
+  ∀ (lib : List Nat) (r1 r2 r3 k c : Nat) (f : File), WF f → Clean f →
+    (interruptInside lib r1 k c f).2 = none →
+    (upgrade lib r2 (interruptInside lib r1 k c f).1).1.erase = (upgrade lib r3 f).1.erase
+
+/-- `sample` cut inside the conversion of `b`, after the main property was re-created -/
+def cut : File :=
+  (convertPropTake 1 (runSteps [1, 2, 1] 1 sample [.addId, .prop ["s", "properties", "a"]]).1
+    ["s", "properties", "b"] 1).1
+
+theorem cut_spec : interruptInside [1, 2, 1] 1 2 1 sample = (cut, none) := by
+  unfold interruptInside
+  rw [sample_collect]
+  decide +kernel
+
+theorem cut_collect : collect [1, 2, 1] cut = [.dim "/data/b/data_arrays/a" "1", .bump] := by
+  have h0 : oldPaths cut.props = [] := by decide +kernel
+  have h1 : propTasks cut = [] := by unfold propTasks; rw [h0]; simp
+  rw [collect_old (by decide +kernel)]
+  unfold preSteps
+  rw [h1]
+  decide +kernel
+
+/-- It is false of the code: cut after the main property of `b` was re-created, the re-run succeeds, raises the
+version — and the per-value uncertainties and the reference text of `b` are lost. -/
+theorem C18_inside_counterexample : ¬ InsideRecoverable := by
+  intro h
+  have := h [1, 2, 1] 1 2 3 2 1 sample (by decide) (by decide +kernel) (by rw [cut_spec])
+  rw [cut_spec] at this
+  unfold upgrade at this
+  rw [cut_collect, sample_collect] at this
+  revert this
+  decide +kernel
+
+/-- the re-run of the cut file succeeds and leaves nothing to collect: the loss is silent -/
+example : (runSteps [1, 2, 1] 2 cut (collect [1, 2, 1] cut)).2 = none ∧
+    extraStr (runSteps [1, 2, 1] 2 cut (collect [1, 2, 1] cut)).1.props ["s", "properties", "b"] ".reference"
+      = some ["", ""] := by
+  rw [cut_collect]
   decide +kernel
 
 end Nix.C18
